@@ -621,6 +621,13 @@ class CallMixin:
             if name == "append":
                 recv.append(args[0])
                 return None
+            if name == "pop" and (not args or isinstance(args[0], int)):
+                if not recv:
+                    raise RaiseEx("IndexError", "pop from empty list")
+                try:
+                    return recv.pop(*args)
+                except IndexError:
+                    raise RaiseEx("IndexError", "pop index out of range")
             if name == "extend":
                 l = self.to_pylist(args[0])
                 if l is None:
